@@ -16,6 +16,7 @@ import (
 	"github.com/rogpeppe/go-internal/cache"
 	"golang.org/x/tools/go/ast/astutil"
 	"golang.org/x/tools/go/ssa"
+	"mvdan.cc/garble/internal/verifhook"
 )
 
 // "maps binkeys" lets pkgCache.ReflectAPIs use its int-keyed inner map.
@@ -138,6 +139,7 @@ func loadPkgCache(lpkg *listedPackage, pkg *types.Package, files []*ast.File, in
 		return pkgCache{}, err
 	}
 	filename, _, err := fsCache.GetFile(lpkg.GarbleActionID)
+	verifhook.Event("pkgcache.get", "for", lpkg.ImportPath, "key", verifhook.Hex(lpkg.GarbleActionID[:8]), "hit", err == nil)
 	// Already in the cache; load it directly.
 	if err == nil {
 		data, err := os.ReadFile(filename)
@@ -185,6 +187,7 @@ func computePkgCache(fsCache *cache.Cache, lpkg *listedPackage, pkg *types.Packa
 			continue // nothing to load
 		}
 		if err := func() error { // function literal for the deferred close
+			verifhook.Event("pkgcache.depget", "for", lpkg.ImportPath, "key", verifhook.Hex(lpkg.GarbleActionID[:8]))
 			if filename, _, err := fsCache.GetFile(lpkg.GarbleActionID); err == nil {
 				// Cache hit; merge its entries into computed. We decode into a
 				// fresh value rather than onto computed, as msgp replaces maps
@@ -244,6 +247,8 @@ func computePkgCache(fsCache *cache.Cache, lpkg *listedPackage, pkg *types.Packa
 	if err != nil {
 		return pkgCache{}, err
 	}
+	verifhook.Event("pkgcache.put", "for", lpkg.ImportPath, "key", verifhook.Hex(lpkg.GarbleActionID[:8]), "digest", verifhook.BytesDigest(data), "names", len(computed.ReflectObjectNames), "apis", len(computed.ReflectAPIs))
+	verifhook.Point("pkgcache.beforePut")
 	if err := fsCache.PutBytes(lpkg.GarbleActionID, data); err != nil {
 		return pkgCache{}, err
 	}
